@@ -217,3 +217,77 @@ func (w *vsymWorld) pick(tag string) string {
 	}
 	return w.ids[k]
 }
+
+// step performs one solver-chosen operation of a well-behaved or misbehaving client.
+// It returns false when the chosen operation is not applicable (path pruned by the caller).
+func (w *vsymWorld) step() {
+	switch vsym_Choose("op", 5) {
+	case 0:
+		if len(w.ids) >= 3 {
+			vsym_Assume(false)
+		}
+		w.checkJoin(w.join("", vsymSubsFromMask(1+vsym_Choose("subs", 3))))
+	case 1:
+		if len(w.ids) == 0 {
+			vsym_Assume(false)
+		}
+		w.checkJoin(w.join(w.ids[vsym_Choose("who", len(w.ids))], vsymSubsFromMask(1+vsym_Choose("subs", 3))))
+	case 2:
+		if len(w.ids) == 0 || w.state() == nil {
+			vsym_Assume(false)
+		}
+		w.sync(w.ids[vsym_Choose("who", len(w.ids))], w.state().generationID)
+	case 3:
+		if len(w.ids) == 0 {
+			vsym_Assume(false)
+		}
+		w.leave(w.ids[vsym_Choose("who", len(w.ids))])
+	case 4:
+		if len(w.ids) == 0 || w.state() == nil {
+			vsym_Assume(false)
+		}
+		w.heartbeat(w.ids[vsym_Choose("who", len(w.ids))], w.state().generationID)
+	}
+	if st := w.state(); st != nil {
+		if w.prop == "C13" {
+			vsym_Assert(st.generationID >= w.lastGen, "C13/generation-never-decreases")
+		}
+		w.lastGen = st.generationID
+	} else {
+		w.lastGen = 0
+	}
+}
+
+// checkJoin: C14 — a JoinGroup reply says NONE only when every member has re-joined the
+// generation it announces; the leader exists; only the leader receives the member list.
+func (w *vsymWorld) checkJoin(resp *kmsg.JoinGroupResponse) {
+	if w.prop != "C14" {
+		return
+	}
+	st := w.state()
+	vsym_Assert(st != nil, "C14/group-exists-after-join")
+	if resp.ErrorCode == 0 {
+		vsym_Reach("join-none")
+		for _, id := range w.currentMembers() {
+			vsym_Assert(st.members[id].joinGeneration == resp.Generation, "C14/none-only-when-all-rejoined")
+		}
+		vsym_Assert(resp.Generation == st.generationID, "C14/reply-generation-current")
+	}
+	_, leaderIsMember := st.members[resp.LeaderID]
+	vsym_Assert(leaderIsMember, "C14/leader-is-a-member")
+	if len(resp.Members) > 0 {
+		vsym_Assert(resp.MemberID == resp.LeaderID && resp.ErrorCode == 0, "C14/member-list-only-to-leader-on-success")
+		vsym_Assert(len(resp.Members) == len(st.members), "C14/member-list-complete")
+	}
+	if resp.ErrorCode == 0 && resp.MemberID == resp.LeaderID {
+		vsym_Assert(len(resp.Members) == len(st.members), "C14/leader-gets-every-member")
+	}
+}
+
+func kmsgHeartbeat(id string, gen int32) *kmsg.HeartbeatRequest {
+	req := kmsg.NewPtrHeartbeatRequest()
+	req.Group = vsymGroup
+	req.MemberID = id
+	req.Generation = gen
+	return req
+}
